@@ -175,7 +175,8 @@ def check_one(chk, rep, repo, cls, eff):
 def check(chk, repo):
     chk.explanation = EXPLANATION
     rep = Rep(chk, repo)
-    eff = Effects(repo)
+    from ..common import get_effects
+    eff = get_effects(repo)
     n = 0
     for cls in ("SupervisedOPF", "KNNSupervisedOPF", "UnsupervisedOPF"):
         n += check_one(chk, rep, repo, cls, eff)
@@ -185,6 +186,10 @@ def check(chk, repo):
     chk.floor("k-nearest scans in predict methods", n, 2)
     from ..common import check_model_premises
     check_model_premises(rep, repo)
+    # a query's identity (its row of a pre-computed matrix) is what the caller says it is, never its batch position
+    from .c10 import check_constructor_forwarding, check_row_ids
+    check_row_ids(chk, rep, repo, only={"Subgraph._build"}, floor=1)
+    check_constructor_forwarding(rep, repo)
     chk.assumptions += ["effect summaries resolve callees by method name (over-approximation)",
                         "a fresh Subgraph/KNNSubgraph built inside predict shares no state with the model "
                         "except views of the caller's query rows"]
